@@ -9,7 +9,7 @@ def run(ctx):
         ctx.broken.append(("correspondence", "instrumentation", "no loop body found in performStateCleanup (app.go): " + detail))
     return standard(ctx, extra_overlay=overlay,
         props=[("Props.C14", ["c14_bucket", "c14_bucket_limiter", "c14_bucket_plus1", "c14_bucket_any_state",
-                              "c14_excess_429", "c14_entry_points", "c14_config", "c14_old_clamp_refuted",
+                              "c14_excess_429", "c14_limiter_first", "c14_entry_points", "c14_config", "c14_old_clamp_refuted",
                               "c14_totp_spacing", "c14_lockout", "c14_lockout_escalates", "c14_fail_count",
                               "c14_totp_per_user", "c14_old_lockout_refuted",
                               "c14_cleanup_invisible", "c14_streak", "c14_lockout_history", "c14_cleanup_per_user",
@@ -18,6 +18,7 @@ def run(ctx):
         obl=("Obl_C14.v", ["c14_totp_consts", "c14_two_seconds", "c14_uint32_consts"]),
         cases=("CasesC14.v", [("c14_cfg_mismatches", "loadVerifyConfigFile's clamps = model clamp_burst/clamp_rate"),
                               ("c14_lim_mismatches", "rate.Limiter.AllowN on explicit time stamps = exact token bucket model (knife edges of half a nanosecond of refill tolerated)"),
+                              ("c14_order_mismatches", "ordering probe: what a backend that reads the limiter during its lookup sees, for every entry point = limiter state after Allow() of the model's login_step"),
                               ("c14_handler_mismatches", "measured handler sequence: every window obeys the theorem's inequality; fresh burst and refill after a pause are let through"),
                               ("c14_totp_mismatches", "validateUserTOTP verdict and rate-limit entry after every attempt, and every entry after every pass of the periodic cleanup, = model with the uint32 counter (simulated time)")], "CasesC14.idx"),
         trusted=["golang.org/x/time/rate computes in float64; the model is exact and tolerates either verdict within half a nanosecond of refill around the threshold",
